@@ -605,6 +605,15 @@ func init() {
 			return fatalFail(r)
 		}
 		key, _ := jsonStr(cs)
+		if cs.C.K == "sharedrows" || cs.C.K == "sharedrows2" {
+			// a list that is not in there is not found at the second meeting
+			// with the same row object either; the one that is there is found
+			c.Ev.Count(key, true, "iter:shared-rows")
+			if it := r.Items[0]; it.Status != "ok" || !strings.Contains(it.S, "contains=false,false;contains=true,false") {
+				return &Fail{Sig: "iterate:contains-shared-row", Expected: "contains=false,false;contains=true,false", Observed: it.Status + " " + it.S + it.Msg}
+			}
+			return nil
+		}
 		if cs.C.K == "aliastables" {
 			// the table is in the list, its first row (a list that starts at the
 			// same address and has the same length) is not
@@ -729,6 +738,11 @@ func init() {
 		})
 		if c.Shard == 0 {
 			iter.Check(c, &c16Iter{C: sb.V{K: "aliastables"}, Probe: []sb.V{{K: "aliasrows"}, {K: "aliashead"}}})
+		}
+		if c.Mine(2) {
+			arr := func(xs ...sb.V) sb.V { return sb.V{K: "arr", E: xs} }
+			iter.Check(c, &c16Iter{C: sb.V{K: "sharedrows"}, Probe: []sb.V{arr(vnum(3), vnum(4)), arr(vnum(1), vnum(2))}})
+			iter.Check(c, &c16Iter{C: sb.V{K: "sharedrows2"}, Probe: []sb.V{arr(arr(vnum(3), vnum(4)), vnum(2)), arr(arr(vnum(1), vnum(2)), vnum(2))}})
 		}
 		iter.Rapid(c, c.Share(c.Pick(10000, 1000000)), genIter)
 		// string-keyed maps (direct and behind a pointer) that grow while iterated
